@@ -2384,7 +2384,67 @@ pub fn c11_rejected_client_keeps_slot(rec: &mut Rec, rng: &mut Rng) {
     sim.w.teardown();
 }
 
+/// C11 at the server, second clause of the first sentence: input that is rejected is ANSWERED the same way whatever the
+/// connection has seen before — the bytes a client receives for a rejected input B after a history H (served
+/// requests, earlier rejections, HTTP/1.0 and HTTP/1.1 mixed) are the bytes a client that has just connected receives
+/// for B.
+pub fn c11_rejection_answered_like_fresh(rec: &mut Rec, rng: &mut Rng) {
+    let rejected_inputs: [&[u8]; 5] = [b"X\r\n", b"GET /cX/b HTTP/3.0\r\n\r\n", b"POST /cX/b HTTP/1.0\r\n\r\n",
+        b"GET /cX/b HTTP/1.0\r\nno colon\r\n\r\n", b"GET /cX/b HTTP/1.1\r\nContent-Length: x\r\n\r\n"];
+    // (version, rejected-in-headers?) of each piece of the history
+    let histories: [&[(u8, bool)]; 6] = [&[], &[(0, false)], &[(0, true)], &[(0, false), (1, false)], &[(1, false), (0, true)], &[(0, true), (0, true)]];
+    for h in histories {
+        for b in rejected_inputs {
+            rec.case("rejection-answered-like-a-fresh-connection");
+            rec.nontrivial();
+            let mut sim = Sim::new(rec, Cfg::base("C11"));
+            let a = sim.connect(rec);
+            sim.poll(rec);
+            let f = sim.connect(rec);
+            sim.poll(rec);
+            for (i, (v, bad)) in h.iter().enumerate() {
+                let piece = if *bad {
+                    sim.plans[a].sent_garbage = true;
+                    format!("GET /c{}/h{} HTTP/1.{}\r\nX-Fine: 1\r\nthis line has no colon\r\n\r\n", a, i, v)
+                } else {
+                    format!("GET /c{}/h{} HTTP/1.{}\r\n\r\n", a, i, v)
+                };
+                sim.w.send(rec, a, piece.as_bytes());
+                for _ in 0..3 {
+                    sim.poll(rec);
+                }
+                let want = format!("/c{}/h{}", a, i);
+                if let Some(k) = sim.w.held.iter().position(|x| x.tag == want) {
+                    sim.respond(rec, rng, k);
+                }
+                for _ in 0..3 {
+                    sim.poll(rec);
+                }
+                sim.w.client_read(rec, a);
+            }
+            sim.w.clients[a].received.clear();
+            sim.plans[a].sent_garbage = true;
+            sim.plans[f].sent_garbage = true;
+            sim.w.send(rec, a, b);
+            sim.w.send(rec, f, b);
+            for _ in 0..4 {
+                sim.poll(rec);
+            }
+            sim.w.client_read(rec, a);
+            sim.w.client_read(rec, f);
+            if sim.w.clients[a].received != sim.w.clients[f].received {
+                rec.oracle_fail("C11", &format!("the same rejected input is answered {:?} on a connection with a history and {:?} on one that has just connected",
+                    String::from_utf8_lossy(&sim.w.clients[a].received[..sim.w.clients[a].received.len().min(40)]),
+                    String::from_utf8_lossy(&sim.w.clients[f].received[..sim.w.clients[f].received.len().min(40)])), &sim.w.log);
+            }
+            sim.settle(rec, rng);
+            sim.w.teardown();
+        }
+    }
+}
+
 pub fn srv_conn(rec: &mut Rec, rng: &mut Rng, thorough: bool) {
+    c11_rejection_answered_like_fresh(rec, rng);
     c11_rejected_client_keeps_slot(rec, rng);
     let n = if thorough { 600 } else { 40 };
     for _ in 0..n {
